@@ -56,9 +56,9 @@ theorem C10_parallel_begin {g : Graph} {cfg : Cfg} {s : St} {w x : Nat}
     (hw : s.ws[w]? = some (W.held (.node x))) (hs : s.stop = false) :
     ∃ s', step? g cfg s (.check w) = some s' ∧ s'.ws[w]? = some (W.running x) := by
   have hlt : w < s.ws.length := (List.getElem?_eq_some_iff.mp hw).1
-  refine ⟨{ setW s w (.running x) with begun := s.begun ++ [x] }, ?_, ?_⟩
-  · simp only [step?, hw, hs]; rfl
-  · simp [setW, hlt]
+  simp only [step?, hw, hs]
+  refine ⟨_, rfl, ?_⟩
+  simp [setW, hlt]
 
 example : (run? diamond ⟨2, some 0⟩ (init diamond) (diamondRun.take 12)).map runningCount = some 2 := by decide
 
